@@ -9,11 +9,12 @@ PID = "C29"
 RULE = ("histories = (last, head, change levels in (last, head], value kind, step): exhaustive for range lengths "
         "1..N (N=24 quick, 40 thorough) with 0..2 change points and steps {1,2,7,60}; hypothesis-sampled ranges up to "
         "300 levels with up to 6 change points and steps 1..400; values are fresh tokens (never return to an earlier "
-        "value) of kind str/int/dict/tuple, histories that start from None or pass through None, and falsy values (0, '', [], {}, ()); oracle: find_state_changes == [(level, new value)] increasing, "
+        "value) of kind str/int/dict/tuple, records compared through a caller-supplied `equals` on one field while another field moves at every level, histories that start from None or pass through None, and falsy values (0, '', [], {}, ()); oracle: find_state_changes == [(level, new value)] increasing, "
         "find_state_change == first change, get() only called inside [last, head]. Non-trivial: >=1 change point. "
         "Distinct = distinct history.")
 
-KINDS = ["str", "int", "dict", "tuple", "none-first", "none-later", "falsy"]
+KINDS = ["str", "int", "dict", "tuple", "none-first", "none-later", "falsy", "coarse", "coarse"]
+# "coarse": the caller watches one field of a record whose other fields move at every level (`equals` compares that field only)
 
 
 def _val(kind, i):
@@ -45,12 +46,18 @@ def oracle(case):
             raise MemoryError("get() called more than %d times" % budget)
         if not (last <= level <= head):
             raise IndexError("get(%d) outside [%d, %d]" % (level, last, head))
+        if kind == "coarse":
+            return {"yay": sum(1 for c in cps if c <= level), "level": level}
         return _val(kind, sum(1 for c in cps if c <= level))
 
     def eq(a, b):
+        if kind == "coarse":
+            return a["yay"] == b["yay"]
         return a == b
 
     want = [(c, _val(kind, i + 1)) for i, c in enumerate(cps)]
+    if kind == "coarse":
+        want = [(c, {"yay": i + 1, "level": c}) for i, c in enumerate(cps)]
     try:
         got = list(find_state_changes(head, last, get, eq, step=step))
     except (RecursionError, MemoryError):
@@ -71,7 +78,7 @@ def oracle(case):
     if cps:
         calls.clear()
         try:
-            res = find_state_change(head, last, get, eq, pred_value=_val(kind, 0))
+            res = find_state_change(head, last, get, eq, pred_value=get(last) if kind == "coarse" else _val(kind, 0))
         except (RecursionError, MemoryError):
             raise Violation("find_state_change does not terminate on %s" % case, case, "single-nontermination")
         except IndexError as e:
